@@ -337,3 +337,24 @@ var propC12 = &h.Prop[C12Case]{ID: "C12", Rule: ruleC12, Gen: genC12, Check: che
 
 func TestC12(t *testing.T)       { propC12.Search(t) }
 func TestC12Replay(t *testing.T) { propC12.Replay(t) }
+
+// FuzzParse is the native coverage-guided leg (thorough tier): the "any" oracle (no panic,
+// nil on error, acceptance/base/value against math/big) on arbitrary strings.
+func FuzzParse(f *testing.F) {
+	for _, s := range []string{"0", "-1.5e10", "+Inf", "-inf", "0x1.8p3", "0b1011e2", "0o17", "1_000.5e-3", "0x_Ap-2", ".5", "5.", "1e", "_1", "1__0", "0x", "", "-", "1e99999999999", "1e-2147483648", "9e2147483646", "0.1e2147483647", "0x1p-1074", "0b.1p-10", "1.5p-3", "0X1P+5", "12345678901234567890123456789012345678901234567890e-60", "0.000000000000000000000000000000000000001", "1e2147483648", "0e99999999999999999999"} {
+		for _, b := range []uint8{0, 1, 2, 3, 4} {
+			f.Add(s, b, uint8(0), uint8(0))
+			f.Add(s, b, uint8(7), uint8(4))
+		}
+	}
+	bases := []int{0, 10, 2, 8, 16}
+	f.Fuzz(func(t *testing.T, s string, b, p, m uint8) {
+		if len(s) > 2000 {
+			return
+		}
+		c := C12Case{Kind: "any", Entry: "parse", S: s, Base: bases[int(b)%len(bases)], P: uint(p % 60), M: m % 6}
+		if fail := propC12.SafeCheck(c, &h.Obs{}); fail != nil {
+			h.FuzzFail(t, "C12", fail, c)
+		}
+	})
+}
